@@ -979,7 +979,7 @@ pub fn run(a: &Args) -> i32 {
         }
     } else {
         check_doc_table(&mut ctx);
-        let (n_full, n_headers) = if ctx.rep.thorough() { (1600, 1200) } else { (170, 96) };
+        let (n_full, n_headers) = if ctx.rep.thorough() { (3000, 1600) } else { (360, 160) };
         for i in 0..n_full {
             let mut rng = case_rng(a.seed, "full", i);
             let case = gen_full(&mut rng, i);
